@@ -3,13 +3,14 @@ import random, json, os, glob, math
 from fractions import Fraction
 from urllib.parse import urljoin
 import common
-from common import zlit, slit
+from common import zlit, slit, qlit
 
 HDR = 'From Coq Require Import ZArith List Bool String.\nImport ListNotations.\nOpen Scope Z_scope.\n'
 PRE_BM = HDR + 'Require Import WV.model.C18Bookmarks.\n'
 PRE_OL = HDR + 'Require Import WV.model.C18Outline.\n'
 PRE_LK = HDR + 'Require Import WV.model.C18Links.\n'
 PRE_DT = HDR + 'Require Import WV.model.C18Date.\n'
+PRE_AB = 'From Coq Require Import QArith List.\nImport ListNotations.\nRequire Import WV.model.C18Aabb.\nOpen Scope Q_scope.\n'
 
 
 def blit(b):
@@ -387,6 +388,97 @@ def stream_links(run, rng, n):
                     'resolve_links, error log captured', cases_with_duplicates=dup, cases_with_missing=missing)
 
 
+# ================================================================================ 3b. rectangle_aabb
+
+def mat_mul(m, n):
+    """row-vector convention of weasyprint.matrix: first m, then n"""
+    a, b, c, d, e, f = m
+    a2, b2, c2, d2, e2, f2 = n
+    return (a * a2 + b * c2, a * b2 + b * d2, c * a2 + d * c2, c * b2 + d * d2, e * a2 + f * c2 + e2, e * b2 + f * d2 + f2)
+
+
+def gen_matrix(rng):
+    F = Fraction
+    lin = rng.choice([
+        (F(3, 5), F(4, 5), F(-4, 5), F(3, 5)), (F(4, 5), F(-3, 5), F(3, 5), F(4, 5)), (F(5, 13), F(12, 13), F(-12, 13), F(5, 13)),
+        (F(-7, 25), F(24, 25), F(-24, 25), F(-7, 25)), (F(0), F(1), F(-1), F(0)), (F(-1), F(0), F(0), F(-1)),
+        (F(1), F(0), F(0), F(1)), (F(2), F(0), F(0), F(3)), (F(-1), F(0), F(0), F(1)), (F(2), F(0), F(0), F(-1)),
+        (F(1), F(1, 2), F(1, 3), F(1)), (F(1), F(0), F(3, 4), F(1)), (F(1), F(-2), F(0), F(1)),
+        (F(1, 2), F(1), F(1), F(1, 2)), (F(0), F(1), F(1), F(0)), (F(3, 5), F(4, 5), F(4, 5), F(-3, 5)),
+        (F(1), F(2), F(2), F(4)), (F(0), F(0), F(0), F(0)), (F(0), F(0), F(1), F(1)),
+        (F(rng.randint(-8, 8), rng.choice([1, 2, 3])), F(rng.randint(-8, 8), rng.choice([1, 2, 5])),
+         F(rng.randint(-8, 8), rng.choice([1, 2, 3])), F(rng.randint(-8, 8), rng.choice([1, 4, 7])))])
+    tr = (F(rng.randint(-50, 50), rng.choice([1, 1, 2, 3])), F(rng.randint(-50, 50), rng.choice([1, 1, 4]))) \
+        if rng.random() < 0.6 else (F(0), F(0))
+    return lin + tr
+
+
+def gen_ab_case(rng):
+    F = Fraction
+    r = rng.random()
+    if r < 0.1:
+        m = None
+    elif r < 0.7:
+        m = gen_matrix(rng)
+    else:                          # nested transforms: product of two or three
+        m = gen_matrix(rng)
+        for _ in range(rng.choice([1, 2])):
+            m = mat_mul(m, gen_matrix(rng))
+    rect = [F(rng.randint(-100, 300), rng.choice([1, 1, 2, 3])), F(rng.randint(-100, 300), rng.choice([1, 1, 2, 8])),
+            rng.choice([F(0), F(1), F(100), F(rng.randint(0, 400), rng.choice([1, 2, 3]))]),
+            rng.choice([F(0), F(10), F(20), F(rng.randint(0, 200), rng.choice([1, 2, 7]))])]
+    return dict(m=None if m is None else [str(v) for v in m], r=[str(v) for v in rect])
+
+
+def coq_ab_case(c, o):
+    m = 'None' if c['m'] is None else '(Some (%s))' % ', '.join(qlit(v) for v in c['m'])
+    return '(%s, (%s), (%s))' % (m, ', '.join(qlit(v) for v in c['r']), ', '.join(qlit(v) for v in o))
+
+
+def stream_aabb(run, rng, n):
+    fixed = [dict(m=['3/5', '4/5', '-4/5', '3/5', '0', '0'], r=['0', '0', '100', '20']),
+             dict(m=None, r=['5', '7', '100', '20']),
+             dict(m=['1/2', '1', '1', '1/2', '3', '4'], r=['10', '10', '40', '10'])]
+    cases = corpus('aabb') + fixed + [gen_ab_case(rng) for _ in range(n)]
+    outs = common.run_impl('impl_c18', 'aabb', cases)
+    coq, kept = [], []
+    for c, (st, o) in zip(cases, outs):
+        if st != 'ok':
+            run.fail('rectangle_aabb raised %s' % (o,), {'stream': 'aabb', 'case': c, 'outcome': o}, signature='aabb-raise')
+            continue
+        coq.append(coq_ab_case(c, o))
+        kept.append((c, o))
+    try:
+        masks = common.eval_cases('c18ab', PRE_AB, 'option matrix * (Q * Q * Q * Q) * (Q * Q * Q * Q)', coq, 'aabb_judge',
+                                  per_file=max(40, len(coq) // 12))
+    except RuntimeError as exc:
+        run.oblige('corr:aabb-direct', False, str(exc))
+        return
+    mism = [(c, o) for (c, o), m in zip(kept, masks) if m & 1]
+    run.oblige('corr:aabb-direct(model rectangle_aabb vs anchors.rectangle_aabb with Matrix of Fractions)', not mism,
+               'first disagreements: %s' % mism[:3])
+    for (c, o), m in zip(kept, masks):
+        if m & 2:
+            run.fail('rectangle_aabb(%s, %s) = %s does not cover the four transformed corners of the rectangle tightly'
+                     % (c['m'], c['r'], o), {'stream': 'aabb', 'case': c, 'impl': o}, signature='aabb-not-bounding-box')
+            break
+
+    def kind(c):
+        if c['m'] is None:
+            return 'none'
+        a, b, cc, d = [Fraction(v) for v in c['m'][:4]]
+        det = a * d - b * cc
+        return ('neg' if det < 0 else 'zero' if det == 0 else 'pos', b != 0 or cc != 0)
+    run.count('aabb-direct', len(kept), [(kind(c), tuple(c['m'] or ()), tuple(c['r'])) for c, _ in kept],
+              samples=[{'case': kept[0][0], 'impl': kept[0][1]}])
+    run.stream_info('aabb-direct', rule='exact rational matrices: rotations by Pythagorean triples (not multiples of 90 '
+                    'degrees), quarter/half turns, scales and mirrors, skews, negative and zero determinants, random, with '
+                    'translations, products of 2-3 of them (nested transforms), None; rectangles with zero and positive '
+                    'sizes; anchors.rectangle_aabb called with the real Matrix class on Fractions',
+                    negative_det=sum(1 for c, _ in kept if kind(c) != 'none' and kind(c)[0] == 'neg'),
+                    oblique=sum(1 for c, _ in kept if kind(c) != 'none' and kind(c)[1]))
+
+
 # ================================================================================ 4. dates
 
 WS = ['', '', '', ' ', '\t', '\n', ' \r\n', '\f']
@@ -618,7 +710,7 @@ def stream_dates(run, rng, n):
 # ================================================================================ 5. render monitor
 
 CSS = ('@page{size:200px 100px;margin:0}html,body{margin:0;font-family:weasyprint;font-size:10px;line-height:10px}'
-       'h1,h2,h3,h4,h5,h6,p,div{margin:0;font-size:10px;font-weight:normal}a{color:black}')
+       'h1,h2,h3,h4,h5,h6,p,div,section,article{display:block;margin:0;font-size:10px;font-weight:normal}a{color:black}')
 WORDS = ['abc', 'abcd', 'aaaa', 'bbbbbbbb', 'cdcdcd', 'hhh', 'efgh', 'ab', 'dddddddddd']
 UNI = ['é', '中文', 'ß', '😀', 'Ω', '(', ')', '\\', '"', "'", 'ü']
 BASE = 'http://base.test/dir/doc.html'
@@ -632,18 +724,108 @@ def text(rng, lo, hi):
     return ' '.join(rng.choice(WORDS) for _ in range(rng.randint(lo, hi)))
 
 
-def gen_doc(rng, ascii_ids):
+TF = [('rotate', 30), ('rotate', 45), ('rotate', -20), ('rotate', 10), ('rotate', 135), ('rotate', 90), ('rotate', 180),
+      ('scale', (2, 2)), ('scale', (0.5, 1.5)), ('scale', (-1, 1)), ('scale', (2, -1)),
+      ('translate', (10, 5)), ('translate', (-7, 12)),
+      ('skew', (20, 10)), ('skew', (-15, 0)), ('skew', (0, 30)),
+      ('matrix', (0.5, 1, 1, 0.5, 3, 4)), ('matrix', (0, 1, 1, 0, 0, 0)), ('matrix', (1, 0.5, -0.5, 1, 0, 0)),
+      ('matrix', (-1, 0, 0, 1, 5, 5)), ('matrix', (0.75, -0.25, 0.5, 1.25, -2, 6))]
+
+
+def gen_transform(rng):
+    return dict(funcs=[rng.choice(TF) for _ in range(rng.choice([1, 1, 1, 2]))],
+                origin=rng.choice([None, None, ('pct', (0, 0)), ('pct', (100, 0)), ('px', (10, 5)), ('pct', (25, 75))]))
+
+
+def css_transform(t):
+    parts = []
+    for name, a in t['funcs']:
+        parts.append({'rotate': 'rotate(%sdeg)', 'scale': 'scale(%s,%s)', 'translate': 'translate(%spx,%spx)',
+                      'skew': 'skew(%sdeg,%sdeg)', 'matrix': 'matrix(%s,%s,%s,%s,%s,%s)'}[name] % (a if name != 'rotate' else (a,)))
+    st = 'transform:%s;' % ' '.join(parts)
+    if t['origin']:
+        st += 'transform-origin:%s;' % (('%s%% %s%%' if t['origin'][0] == 'pct' else '%spx %spx') % tuple(t['origin'][1]))
+    return st
+
+
+def apply_funcs(funcs, dx, dy):
+    """CSS Transforms: the listed functions are multiplied in order, i.e. the last one acts on the point first."""
+    for name, a in reversed(funcs):
+        if name == 'rotate':
+            r = math.radians(a)
+            dx, dy = dx * math.cos(r) - dy * math.sin(r), dx * math.sin(r) + dy * math.cos(r)
+        elif name == 'scale':
+            dx, dy = dx * a[0], dy * a[1]
+        elif name == 'translate':
+            dx, dy = dx + a[0], dy + a[1]
+        elif name == 'skew':
+            dx, dy = dx + math.tan(math.radians(a[0])) * dy, dy + math.tan(math.radians(a[1])) * dx
+        elif name == 'matrix':
+            dx, dy = a[0] * dx + a[2] * dy + a[4], a[1] * dx + a[3] * dy + a[5]
+        else:
+            raise ValueError(name)
+    return dx, dy
+
+
+def chain_point(exp, geo, page, chain, px, py):
+    """image of a point of page `page` under the transforms of the boxes in `chain` (outermost first): each box turns
+    around its own transform-origin (default: centre of its border box), inner boxes first"""
+    for kk in reversed(chain or []):
+        frag = next((area for pi, area, _ in geo.get(kk, []) if pi == page), None)
+        if frag is None:
+            return None
+        ax, ay, w, h = frag
+        t = exp['tboxes'][kk]
+        if t['origin'] is None:
+            ox, oy = ax + w / 2, ay + h / 2
+        elif t['origin'][0] == 'pct':
+            ox, oy = ax + w * t['origin'][1][0] / 100, ay + h * t['origin'][1][1] / 100
+        else:
+            ox, oy = ax + t['origin'][1][0], ay + t['origin'][1][1]
+        dx, dy = apply_funcs(t['funcs'], px - ox, py - oy)
+        px, py = ox + dx, oy + dy
+    return px, py
+
+
+def chain_aabb(exp, geo, page, chain, area):
+    x, y, w, h = area
+    pts = [chain_point(exp, geo, page, chain, px, py) for px, py in ((x, y), (x + w, y), (x, y + h), (x + w, y + h))]
+    if any(p is None for p in pts):
+        return None
+    return (min(p[0] for p in pts), min(p[1] for p in pts), max(p[0] for p in pts), max(p[1] for p in pts))
+
+
+def token(n):
+    """a unique word made of letters a-h (exactly 1em wide each in the test font)"""
+    s = ''
+    while True:
+        s = 'abcdefgh'[n % 8] + s
+        n //= 8
+        if n == 0:
+            return 'gh' + s + 'hg'
+
+
+def gen_doc(rng, ascii_ids, mode=None):
     k = [0]
-    exp = dict(bookmarks=[], anchors=[], links=[], files={}, meta={}, attachments=[])
+    exp = dict(bookmarks=[], anchors=[], links=[], files={}, meta={}, attachments=[], tboxes={})
+    rules = []
     pool = ['s%d' % i for i in range(rng.choice([2, 4, 8]))]
     if not ascii_ids:
         pool += ['aé', 'ü1', 'z中']
+    mode = mode or rng.choice(['flat', 'flat', 'nested', 'nested', 'transform', 'mixed'])
+    budget = [rng.choice([3, 8, 20, 40, 70])]
+    nh = [0]
+    max_h = rng.choice([0, 3, 80]) if mode == 'flat' else 80
 
     def key():
         k[0] += 1
         return 'k%d' % k[0]
 
-    def link(inline=True):
+    def label(long_p=0.4):
+        lab = text(rng, 1, 3) if rng.random() > long_p else text(rng, 7, 14)       # long ones span lines/pages
+        return lab + ' ' + token(k[0])
+
+    def link(chain, inline=True):
         kk = key()
         r = rng.random()
         rel = ''
@@ -668,66 +850,145 @@ def gen_doc(rng, ascii_ids):
                 exp['files'][fn] = 'content of %s %s' % (fn, rng.choice(['', 'é', 'x' * 50]))
             href, kind, target, rel = fn, 'attachment', fn, ' rel=attachment'
         style = ''
-        tr = None
+        chain = list(chain)
         if not inline:
-            tr = rng.choice([None, ('rotate', 90), ('scale', 2), ('translate', (10, 5)), ('rotate', 180)])
-            style = 'display:block;width:%dpx;' % rng.choice([40, 80])
-            if tr:
-                style += 'transform:%s;' % {'rotate': 'rotate(%sdeg)', 'scale': 'scale(%s)', 'translate': 'translate(%spx,%spx)'}[tr[0]] % tr[1]
+            style = 'display:%s;width:%dpx;' % (rng.choice(['block', 'block', 'inline-block']), rng.choice([40, 80]))
+            if rng.random() < 0.75:
+                t = gen_transform(rng)
+                exp['tboxes'][kk] = t
+                chain.append(kk)
+                style += css_transform(t)
         txt = text(rng, 1, 2) if rng.random() < 0.7 else text(rng, 6, 12)      # the long ones wrap over lines
-        exp['links'].append(dict(k=kk, kind=kind, target=target, transform=tr))
+        exp['links'].append(dict(k=kk, kind=kind, target=target, chain=chain))
         return '<a data-k=%s href="%s"%s style="%s">%s</a>' % (kk, esc(href), rel, style, txt)
 
-    def anchor_span():
+    def anchor_span(chain):
         kk = key()
         name = rng.choice(pool)
-        exp['anchors'].append(dict(k=kk, name=name))
+        exp['anchors'].append(dict(k=kk, name=name, chain=list(chain)))
         if rng.random() < 0.2:
             return '<a data-k=%s name="%s">%s</a>' % (kk, esc(name), text(rng, 1, 1))
         return '<span data-k=%s id="%s">%s</span>' % (kk, esc(name), text(rng, 1, 1))
 
-    body = []
-    nh = 0
-    nitems = rng.choice([3, 8, 20, 40, 70])
-    max_h = rng.choice([0, 3, 80])
-    for _ in range(nitems):
+    def bm_style(level, state):
+        st = 'bookmark-level:%s;' % level
+        if state == 'closed':
+            st += 'bookmark-state:closed;'
+        return st
+
+    def heading(chain):
+        nh[0] += 1
+        kk = key()
+        tag = rng.randint(1, 6)
+        level = tag
+        st = ''
+        if rng.random() < 0.25:
+            level = rng.choice([1, 2, 3, 7, 9, 'none'])
+            st += 'bookmark-level:%s;' % level
+        state = 'open'
+        if rng.random() < 0.3:
+            state = 'closed'
+            st += 'bookmark-state:closed;'
+        lab = label()
+        if rng.random() < 0.15:
+            lab = rng.choice(UNI[:5]) + ' ' + lab
+        hid = 'h%d' % nh[0]
+        exp['anchors'].append(dict(k=kk, name=hid, chain=list(chain)))
+        if level != 'none':
+            exp['bookmarks'].append(dict(k=kk, level=level, label=lab, state=state, chain=list(chain)))
+        return '<h%d data-k=%s id=%s style="%s">%s</h%d>' % (tag, kk, hid, st, esc(lab), tag)
+
+    def pseudo(kk, which, chain):
+        """a ::before / ::after box with its own bookmark (or none)"""
+        content = text(rng, 1, 2) if rng.random() < 0.7 else text(rng, 5, 9)
+        decl = "content:'%s';display:%s;" % (content, rng.choice(['block', 'inline', 'inline']))
+        if rng.random() < 0.8:
+            level = rng.choice([1, 2, 3, 4, 5])
+            state = rng.choice(['open', 'open', 'closed'])
+            lab = label(0.1)
+            decl += bm_style(level, state) + "bookmark-label:'%s';" % lab
+            exp['bookmarks'].append(dict(k=kk + '::' + which, level=level, label=lab, state=state, chain=list(chain)))
+        rules.append('[data-k=%s]::%s{%s}' % (kk, which, decl))
+
+    def container(depth, chain):
+        kk = key()
+        tag = rng.choice(['section', 'div', 'article'])
+        attrs = ''
+        st = ''
+        if rng.random() < 0.85:
+            level = rng.choice([1, 1, 2, 2, 3, 4, 6])
+            state = rng.choice(['open', 'open', 'closed'])
+            lab = label(0.1)
+            st += bm_style(level, state)
+            if rng.random() < 0.5:
+                attrs += ' title="%s"' % esc(lab)
+                st += 'bookmark-label:attr(title);'
+            else:
+                st += "bookmark-label:'%s';" % lab
+            exp['bookmarks'].append(dict(k=kk, level=level, label=lab, state=state, chain=list(chain)))
+        if rng.random() < 0.3:
+            name = rng.choice(pool)
+            attrs += ' id="%s"' % esc(name)
+            exp['anchors'].append(dict(k=kk, name=name, chain=list(chain)))
+        if rng.random() < 0.4:
+            pseudo(kk, 'before', chain)
+        inner = items(depth + 1, chain, rng.randint(2, 7))
+        if rng.random() < 0.4:
+            pseudo(kk, 'after', chain)
+        return '<%s data-k=%s%s style="%s">%s</%s>' % (tag, kk, attrs, st, '\n'.join(inner), tag)
+
+    def wrapper(depth, chain):
+        kk = key()
+        t = gen_transform(rng)
+        exp['tboxes'][kk] = t
+        inner = items(depth + 1, list(chain) + [kk], rng.randint(1, 4))
+        return '<div data-k=%s style="%swidth:%dpx">%s</div>' % (kk, css_transform(t), rng.choice([120, 160, 200]),
+                                                                  '\n'.join(inner))
+
+    def paragraph(chain):
+        parts = []
+        for _ in range(rng.randint(1, 4)):
+            q = rng.random()
+            parts.append(link(chain) if q < 0.35 else anchor_span(chain) if q < 0.55 else text(rng, 1, 6))
+        return '<p>%s</p>' % ' '.join(parts)
+
+    def item(depth, chain):
+        budget[0] -= 1
         r = rng.random()
-        if r < 0.4 and nh < max_h:
-            nh += 1
-            kk = key()
-            tag = rng.randint(1, 6)
-            level = tag
-            st = ''
-            if rng.random() < 0.25:
-                level = rng.choice([1, 2, 3, 7, 9, 'none'])
-                st += 'bookmark-level:%s;' % level
-            state = 'open'
-            if rng.random() < 0.3:
-                state = 'closed'
-                st += 'bookmark-state:closed;'
-            label = text(rng, 1, 3) if rng.random() < 0.6 else text(rng, 7, 14)       # long ones span lines/pages
-            if rng.random() < 0.15:
-                label += ' ' + rng.choice(UNI[:5])
-            hid = 'h%d' % nh
-            exp['anchors'].append(dict(k=kk, name=hid))
-            if level != 'none':
-                exp['bookmarks'].append(dict(k=kk, level=level, label=label, state=state))
-            body.append('<h%d data-k=%s id=%s style="%s">%s</h%d>' % (tag, kk, hid, st, esc(label), tag))
-        elif r < 0.7:
-            parts = []
-            for _ in range(rng.randint(1, 4)):
-                q = rng.random()
-                parts.append(link() if q < 0.35 else anchor_span() if q < 0.55 else text(rng, 1, 6))
-            body.append('<p>%s</p>' % ' '.join(parts))
-        elif r < 0.8:
-            body.append(link(inline=False))
-        elif r < 0.9:
+        p_cont = {'flat': 0, 'nested': 0.3, 'transform': 0.05, 'mixed': 0.15}[mode] if depth < 3 else 0
+        p_wrap = {'flat': 0, 'nested': 0.03, 'transform': 0.25, 'mixed': 0.1}[mode] if len(chain) < 2 and depth < 3 else 0
+        if r < p_cont and budget[0] > 0:
+            return container(depth, chain)
+        r -= p_cont
+        if r < p_wrap and budget[0] > 0:
+            return wrapper(depth, chain)
+        r = rng.random()
+        if r < 0.4 and nh[0] < max_h and len(exp['bookmarks']) < 80:
+            return heading(chain)
+        if r < 0.7:
+            return paragraph(chain)
+        if r < 0.8:
+            return link(chain, inline=False)
+        if r < 0.9:
             kk = key()
             name = rng.choice(pool)
-            exp['anchors'].append(dict(k=kk, name=name))
-            body.append('<div data-k=%s id="%s">%s</div>' % (kk, esc(name), text(rng, 1, 8)))
-        else:
-            body.append('<div style="break-before:page">%s</div>' % text(rng, 1, 3))
+            exp['anchors'].append(dict(k=kk, name=name, chain=list(chain)))
+            return '<div data-k=%s id="%s">%s</div>' % (kk, esc(name), text(rng, 1, 8))
+        if depth == 0:
+            return '<div style="break-before:page">%s</div>' % text(rng, 1, 3)
+        return '<p>%s</p>' % text(rng, 2, 10)
+
+    def items(depth, chain, n):
+        out = []
+        for _ in range(n):
+            if budget[0] <= 0 and out:
+                break
+            out.append(item(depth, chain))
+        return out
+
+    body = []
+    while budget[0] > 0:
+        body.append(item(0, []))
     # metadata
     head = []
     m = exp['meta']
@@ -777,33 +1038,14 @@ def gen_doc(rng, ascii_ids):
         title = mstr() if rng.random() < 0.6 else None
         exp['attachments'].append(dict(url=fn, title=title))
         head.append('<link rel=attachment href="%s"%s>' % (fn, '' if title is None else ' title="%s"' % esc(title)))
-    html = '<html%s><head><meta charset=utf-8><style>%s</style>%s</head><body>%s</body></html>' % (
-        '' if lang is None else ' lang=%s' % lang, CSS, ''.join(head), '\n'.join(body))
+    html = '<html%s><head><meta charset=utf-8><style>%s%s</style>%s</head><body>%s</body></html>' % (
+        '' if lang is None else ' lang=%s' % lang, CSS, ''.join(rules), ''.join(head), '\n'.join(body))
+    exp['mode'] = mode
     return dict(html=html, files=exp['files'], base_url=BASE, zoom=rng.choice([1, 1, 2, 0.5])), exp
 
 
 def close(a, b, tol=1e-6):
     return abs(a - b) <= tol * max(1.0, abs(a), abs(b))
-
-
-def aabb(tr, x, y, w, h):
-    if not tr:
-        return (x, y, x + w, y + h)
-    cx, cy = x + w / 2, y + h / 2
-    pts = [(x, y), (x + w, y), (x, y + h), (x + w, y + h)]
-    out = []
-    for px, py in pts:
-        dx, dy = px - cx, py - cy
-        if tr[0] == 'rotate':
-            a = math.radians(tr[1])
-            dx, dy = dx * math.cos(a) - dy * math.sin(a), dx * math.sin(a) + dy * math.cos(a)
-        elif tr[0] == 'scale':
-            dx, dy = dx * tr[1], dy * tr[1]
-        elif tr[0] == 'translate':
-            dx, dy = dx + tr[1][0], dy + tr[1][1]
-        out.append((cx + dx, cy + dy))
-    xs, ys = [p[0] for p in out], [p[1] for p in out]
-    return (min(xs), min(ys), max(xs), max(ys))
 
 
 def pdf_bytes(s):
@@ -855,8 +1097,9 @@ def judge_doc(case, exp, r):
             bad.append(('bookmarked-element-has-no-box', b['k']))
             continue
         pi, area, _ = boxes[0]
-        if t[1] != pi or not close(t[3], area[0]) or not close(t[4], area[1]):
-            bad.append(('bookmark-target-is-first-box-of-element', (t[:5], pi, area)))
+        pt = chain_point(exp, geo, pi, b.get('chain'), area[0], area[1])
+        if pt is None or t[1] != pi or not close(t[3], pt[0], 1e-5) or not close(t[4], pt[1], 1e-5):
+            bad.append(('bookmark-target-is-first-box-of-element', (t[:5], pi, area, pt)))
     # outline objects
     items = {it['num']: it for it in r['outline_items']}
     root = r['outline_root']
@@ -894,10 +1137,11 @@ def judge_doc(case, exp, r):
                     boxes = geo.get(b['k'], [])
                     if boxes:
                         pi, area, _ = boxes[0]
-                        if it['dest'] != r['page_refs'][pi] or it['dest_kind'] != '/XYZ' or \
-                                not close(float(it['x']), area[0] * s) or \
-                                not close(float(it['y']), (heights[pi] - area[1]) * s) or it['zoom'] != 0:
-                            bad.append(('outline-dest-is-page-and-position-of-element', (it, pi, area, s)))
+                        pt = chain_point(exp, geo, pi, b.get('chain'), area[0], area[1])
+                        if pt is None or it['dest'] != r['page_refs'][pi] or it['dest_kind'] != '/XYZ' or \
+                                not close(float(it['x']), pt[0] * s, 1e-5) or \
+                                not close(float(it['y']), (heights[pi] - pt[1]) * s, 1e-5) or it['zoom'] != 0:
+                            bad.append(('outline-dest-is-page-and-position-of-element', (it, pi, area, pt, s)))
                     cnt += 1 + (0 if b['state'] == 'closed' else kc)
                     prev, cur = cur, it['next']
                 if cur is not None:
@@ -909,9 +1153,11 @@ def judge_doc(case, exp, r):
             if cnt is not None and len(seen) != len(items):
                 bad.append(('outline-unreachable-items', (len(seen), len(items))))
     # ---------------- anchors / destinations
-    first_of = {}
+    first_of, first_chain = {}, {}
     for a in exp['anchors']:
         first_of.setdefault(a['name'], a['k'])
+        first_chain.setdefault(a['name'], a.get('chain'))
+    bookmarked = set(b['k'] for b in exp['bookmarks'])
     dests = r['dests']
     names = [d[0] for d in dests]
     if sorted(set(names)) != sorted(first_of):
@@ -927,17 +1173,27 @@ def judge_doc(case, exp, r):
             bad.append(('dest-element-has-no-box', name))
             continue
         pi, area, _ = boxes[0]
-        if pref != r['page_refs'][pi] or kind != '/XYZ' or not close(x, area[0] * s) or \
-                not close(y, (heights[pi] - area[1]) * s) or z != 0:
-            bad.append(('dest-is-first-element-with-that-name', (name, pref, x, y, pi, area)))
+        pt = chain_point(exp, geo, pi, first_chain.get(name), area[0], area[1])
+        if pt is None or pref != r['page_refs'][pi] or kind != '/XYZ' or not close(x, pt[0] * s, 1e-5) or \
+                not close(y, (heights[pi] - pt[1]) * s, 1e-5) or z != 0:
+            pt2 = chain_point(exp, geo, pi, first_chain.get(name), pt[0], pt[1]) if pt is not None else None
+            if pt2 is not None and first_chain.get(name) and first_of[name] in bookmarked and pref == r['page_refs'][pi] \
+                    and close(x, pt2[0] * s, 1e-5) and close(y, (heights[pi] - pt2[1]) * s, 1e-5):
+                # gather_anchors: the bookmark branch overwrites pos_x, pos_y with their images, the anchor branch
+                # transforms them again
+                bad.append(('dest-of-bookmarked-element-transformed-twice', (name, x, y, pt, pt2)))
+            else:
+                bad.append(('dest-is-first-element-with-that-name', (name, pref, x, y, pi, area, pt)))
     # ---------------- links
     want_api = [[] for _ in heights]
     want_pdf = [[] for _ in heights]
     nmissing = 0
     for l in exp['links']:
         for pi, area, cls in geo.get(l['k'], []):
-            x, y, w, h = area
-            rect = aabb(l['transform'], x, y, w, h)
+            rect = chain_aabb(exp, geo, pi, l.get('chain'), area)
+            if rect is None:
+                bad.append(('transformed-ancestor-has-no-box-on-the-page', (l['k'], pi)))
+                continue
             want_api[pi].append((l['kind'], l['target'], rect))
             if l['kind'] == 'internal' and l['target'] not in first_of:
                 nmissing += 1
@@ -1013,9 +1269,9 @@ def probe_nonascii_ids():
             '<p data-k=k2 id="aé">abc</p><p data-k=k3 id=b>abc</p><p><a data-k=k4 href="#aé">abc</a> '
             '<a data-k=k5 href="#z">abc</a></p></body></html>' % CSS)
     exp = dict(bookmarks=[], anchors=[dict(k='k1', name='z'), dict(k='k2', name='aé'), dict(k='k3', name='b')],
-               links=[dict(k='k4', kind='internal', target='aé', transform=None),
-                      dict(k='k5', kind='internal', target='z', transform=None)],
-               files={}, meta=dict(authors=[], keywords=[], lang=None), attachments=[])
+               links=[dict(k='k4', kind='internal', target='aé', chain=[]),
+                      dict(k='k5', kind='internal', target='z', chain=[])],
+               files={}, meta=dict(authors=[], keywords=[], lang=None), attachments=[], tboxes={})
     return dict(html=html, files={}, base_url=BASE, zoom=1), exp
 
 
@@ -1029,7 +1285,7 @@ def stream_render(run, rng, n):
     # Python str, the keys are written as bytes)
     docs.append(probe_nonascii_ids())
     outs = common.run_impl('impl_c18', 'render_doc', [d[0] for d in docs], limit=90, chunksize=2)
-    split = nb = nl = na = 0
+    split = nb = nl = na = nsplitc = npseudo = ntl = nnest = 0
     seen = set()
     for (case, exp), (st, o) in zip(docs, outs):
         if st == 'timeout':
@@ -1043,6 +1299,17 @@ def stream_render(run, rng, n):
         for pi, kk, ident, tag, area, cls in o['geo']:
             pages_of.setdefault(kk, set()).add(pi)
         split += sum(1 for b in exp['bookmarks'] if len(pages_of.get(b['k'], ())) > 1)
+        first_page = {}
+        for pi, kk, ident, tag, area, cls in o['geo']:
+            first_page.setdefault(kk, pi)
+        eb = exp['bookmarks']
+        for i, b in enumerate(eb):      # a bookmarked box continued on a later page after another bookmark was met
+            pgs = pages_of.get(b['k'], ())
+            if len(pgs) > 1 and any(first_page.get(c['k'], -1) < max(pgs) for c in eb[i + 1:i + 6]):
+                nsplitc += 1
+        npseudo += sum(1 for b in eb if '::' in b['k'])
+        ntl += sum(1 for l in exp['links'] if l.get('chain'))
+        nnest += sum(1 for l in exp['links'] if len(l.get('chain') or ()) > 1)
         nb += len(exp['bookmarks'])
         nl += len(exp['links'])
         na += len(exp['anchors'])
@@ -1056,13 +1323,22 @@ def stream_render(run, rng, n):
                      {'stream': 'render', 'case': case, 'exp': exp, 'clause': clause}, signature=clause)
         seen.add((len(exp['bookmarks']) > 0, len(exp['links']) > 0, o['npages'] > 1, bool(exp['attachments'])))
     run.count('render-monitor', len(docs), [('doc', i) for i in range(len(docs))], samples=[docs[-1][0]['html'][:500]])
-    run.stream_info('render-monitor', bookmarks=nb, headings_split_over_pages=split, links=nl, anchors=na,
-                    rule='full renders (200x100px pages): 0..80 headings h1-h6 with bookmark-level overrides 1..9/none, '
-                         'closed states, labels long enough to span lines and pages; ids from a small pool (duplicates), <a '
-                         'name>; links: #id, #missing, same-document absolute, absolute, relative, attachment; inline '
-                         '(wrapping) and block links with rotate/scale/translate; Unicode title/authors/description/'
-                         'keywords, valid and malformed dates, lang, <link rel=attachment>; PDF objects read from the '
-                         'pydyf.PDF handed to the finisher, strings decoded from their serialised form; judged in Python')
+    run.stream_info('render-monitor', bookmarks=nb, bookmarked_boxes_split_over_pages=split, links=nl, anchors=na,
+                    split_containers_with_bookmarks_between_fragments=nsplitc, pseudo_element_bookmarks=npseudo,
+                    links_under_transform=ntl, links_under_nested_transforms=nnest,
+                    rule='full renders (200x100px pages), modes flat/nested/transform/mixed: 0..80 bookmarks from h1-h6 '
+                         '(bookmark-level overrides 1..9/none), from section/div/article containers (label by attr(title) or '
+                         'string, nested up to 3 deep, spanning pages with bookmarked descendants between their fragments) '
+                         'and from their ::before/::after boxes (block or inline, own level/label/state); closed states; '
+                         'labels unique per origin and long enough to span lines and pages; ids from a small pool '
+                         '(duplicates), <a name>; links: #id, #missing, same-document absolute, absolute, relative, '
+                         'attachment; inline (wrapping) links and block/inline-block links with 1-2 transform functions '
+                         'out of rotate(30/45/-20/10/135/90/180deg), scale incl. mirrors, translate, skew, matrix() with '
+                         'negative determinant, five transform-origins, inside transformed wrappers (nested transforms) '
+                         'that also hold headings and anchors; Unicode title/authors/description/keywords, valid and '
+                         'malformed dates, lang, <link rel=attachment>; PDF objects read from the pydyf.PDF handed to the '
+                         'finisher, strings decoded from their serialised form; expected rectangles/points computed from '
+                         'the laid-out (untransformed) boxes by the harness; judged in Python, tolerance 1e-5')
 
 
 # ================================================================================ check / replay
@@ -1070,7 +1346,8 @@ def stream_render(run, rng, n):
 def check(run):
     rng = random.Random(run.seed * 7919 + 18)
     thorough = run.tier == 'thorough'
-    common.prove(run, 'C18', ['model/C18Bookmarks.vo', 'model/C18Outline.vo', 'model/C18Links.vo', 'model/C18Date.vo'])
+    common.prove(run, 'C18', ['model/C18Bookmarks.vo', 'model/C18Outline.vo', 'model/C18Links.vo', 'model/C18Date.vo',
+                              'model/C18Aabb.vo'])
     run.trusted += ['Coq 8.16.1 kernel (coqc); vm_compute for the cases.v evaluation',
                     'hand models coq/model/C18*.v, tied to /repo only by the direct-call correspondence streams',
                     'harness stubs (SimpleNamespace pages/boxes, pydyf.PDF), its reader of pydyf objects/strings, '
@@ -1082,6 +1359,7 @@ def check(run):
     stream_bookmarks(run, rng, 1000 * k)
     stream_outlines(run, rng, 500 * k)
     stream_links(run, rng, 700 * k)
+    stream_aabb(run, rng, 500 * k)
     stream_dates(run, rng, 400 * k)
     stream_render(run, rng, 200 * k)
 
@@ -1119,6 +1397,15 @@ def replay(data):
             return 1
         m = common.eval_cases('c18replay', PRE_LK, 'list box * list (list link * list anchor) * list Z',
                               [coq_lk_case(d['case'], o)], 'links_judge')
+        print('replay: impl', o, 'mask', m)
+        return 1 if m[0] else 0
+    if st == 'aabb':
+        (s, o), = common.run_impl('impl_c18', 'aabb', [d['case']])
+        if s != 'ok':
+            print('replay:', s, o)
+            return 1
+        m = common.eval_cases('c18replay', PRE_AB, 'option matrix * (Q * Q * Q * Q) * (Q * Q * Q * Q)',
+                              [coq_ab_case(d['case'], o)], 'aabb_judge')
         print('replay: impl', o, 'mask', m)
         return 1 if m[0] else 0
     if st in ('dates', 'dates-malformed'):
